@@ -11,8 +11,10 @@ VAxis(e) == LET v == AxisOK(e.c, e.o) r == AxisOverlap(e.c.ns, e.c.nd, e.c.s, e.
   ELSE IF e.c.s % 15 = 0 /\ 960 % Abs(e.c.s \div 15) = 0 /\ e.o # <<r.s0, r.s1, r.d0, r.d1>> THEN "drift:axis_overlap_differs_from_model" ELSE "ok"
 VBig(e) == IF e.outcome # "ok" THEN "reject:raised_" \o e.outcome
            ELSE LET v == BigPlanOK(e.c, e.o) IN IF v # "ok" THEN "reject:" \o v ELSE "ok"
+VXCrs(e) == IF e.outcome # "ok" THEN "reject:raised_" \o e.outcome
+            ELSE IF e.o.paste_ok THEN "reject:paste_reported_for_grids_in_different_coordinate_reference_systems" ELSE "ok"
 V03(e) ==
-  IF "ns" \in DOMAIN e.c THEN VAxis(e) ELSE IF "den" \in DOMAIN e.c THEN VBig(e) ELSE
+  IF "ns" \in DOMAIN e.c THEN VAxis(e) ELSE IF "den" \in DOMAIN e.c THEN VBig(e) ELSE IF "xcrs" \in DOMAIN e.c THEN VXCrs(e) ELSE
   LET c == e.c o == e.o v == PlanOK(c, o) IN
   IF e.outcome # "ok" THEN "reject:raised_" \o e.outcome
   ELSE IF v # "ok" THEN "reject:" \o v
@@ -23,7 +25,8 @@ V03(e) ==
   ELSE "ok"
 V10(e) ==
   LET c == e.c o == e.o v == PasteSoundOK(c, o) w == PasteRegionsOK(c, o) IN
-  IF e.outcome # "ok" THEN "reject:raised_" \o e.outcome
+  IF "xcrs" \in DOMAIN c THEN VXCrs(e)
+  ELSE IF e.outcome # "ok" THEN "reject:raised_" \o e.outcome
   ELSE IF v # "ok" THEN "reject:" \o v
   ELSE IF w # "ok" THEN "reject:" \o w
   ELSE IF ~o.paste_ok \/ o.shrink # 1 THEN (IF o.paste_ok THEN "ok" ELSE "skip")
